@@ -105,15 +105,17 @@ impl Ctx<'_> {
     fn line(&self, hh: u64, height: u64, index: u32, axis: i32, honest: bool, shares: &[RawBefpShare]) -> String {
         let w = self.eds.square_width() as usize;
         let k = w / 2;
-        // ground truth about the committed square: the indicated axis and the real codec's parity of its first half
+        // ground truth about the committed square: the shares of the indicated axis (the driver checks that their NMT root
+        // is the DAH's root; the codec's parity of their first half and the honesty of the proof are recomputed by
+        // `observed` on every run)
+        let _ = honest;
         let ax = AxisType::try_from(axis).ok();
-        let (axisdata, axpar) = match ax {
+        let axisdata = match ax {
             Some(a) if (index as usize) < w => {
                 let d: Vec<Vec<u8>> = self.eds.axis(a, index as u16).unwrap().iter().map(|s| s.to_vec()).collect();
-                let par = encode_first_half(&d);
-                (hxl(&d), par.map(|p| hxl(&p)).unwrap_or_else(|| "-".into()))
+                hxl(&d)
             }
-            _ => ("none".to_string(), "-".to_string()),
+            _ => "none".to_string(),
         };
         // codec oracle: what leopard makes of the rebuilt axis
         let rebuilt: Vec<Vec<u8>> = shares
@@ -122,10 +124,9 @@ impl Ctx<'_> {
             .collect();
         let (rec, par) = codec_oracle(&rebuilt, k);
         let mut l = format!(
-            "{} hh={hh} {} height={height} index={index} axis={axis} axisdata={axisdata} axpar={axpar} honest={} rec={rec} par={par}",
+            "{} hh={hh} {} height={height} index={index} axis={axis} axisdata={axisdata} rec={rec} par={par}",
             self.opname,
             roots_fields(self.dah),
-            honest as u8
         );
         for s in shares {
             l.push(' ');
@@ -168,6 +169,56 @@ fn random_subset(rng: &mut Rng, n: usize, m: usize) -> Vec<bool> {
         v[i] = true;
     }
     v
+}
+
+/// "a proof carrying at least half of that axis's shares, each proven at its own position", judged from the line alone:
+/// right height, an existing axis, one entry per position, at least half present, every present entry = the committed
+/// share of ITS position under the namespace of that position, with an inclusion proof for exactly that leaf of the tree
+/// its proof axis names (checked with nmt-rs against the DAH root on the line).
+fn honest_proof(line: &str, axisdata: Option<&[Vec<u8>]>) -> Option<bool> {
+    let hh = arg_u64(line, "hh")?;
+    let dah = dah_from_line(line)?;
+    let height = arg_u64(line, "height")?;
+    let index = arg_u64(line, "index")? as usize;
+    let axis = arg(line, "axis")?.parse::<i32>().ok()?;
+    let shares = all_args(line, "sh").into_iter().map(share_unword).collect::<Option<Vec<_>>>()?;
+    let axisdata = axisdata?;
+    let w = dah.row_roots().len();
+    if hh != height || !(axis == 0 || axis == 1) || index >= w || shares.len() != w || axisdata.len() != w || dah.column_roots().len() != w {
+        return Some(false);
+    }
+    let k = w / 2;
+    if shares.iter().filter(|s| s.proof.is_some()).count() < k {
+        return Some(false);
+    }
+    for (i, s) in shares.iter().enumerate() {
+        let Some(raw_proof) = &s.proof else { continue };
+        if s.data.len() != SHARE + NS_SIZE || s.data[NS_SIZE..] != axisdata[i][..] {
+            return Some(false);
+        }
+        let ns_expected: Vec<u8> = if index < k && i < k { axisdata[i][..NS_SIZE].to_vec() } else { Namespace::PARITY_SHARE.as_bytes().to_vec() };
+        if s.data[..NS_SIZE] != ns_expected[..] {
+            return Some(false);
+        }
+        let Ok(ns) = Namespace::from_raw(&ns_expected) else { return Some(false) };
+        let Ok(proof) = NamespaceProof::try_from(raw_proof.clone()) else { return Some(false) };
+        let (root, leaf) = match (axis, s.proof_axis) {
+            (0, 0) => (dah.row_root(index as u16), i),
+            (0, 1) => (dah.column_root(i as u16), index),
+            (1, 0) => (dah.row_root(i as u16), index),
+            (1, 1) => (dah.column_root(index as u16), i),
+            _ => return Some(false),
+        };
+        let Some(root) = root else { return Some(false) };
+        if proof.start_idx() as usize != leaf || proof.end_idx() as usize != leaf + 1 {
+            return Some(false);
+        }
+        let ok = std::panic::catch_unwind(|| proof.verify_range(&root, &[&axisdata[i][..]], *ns).is_ok()).unwrap_or(false);
+        if !ok {
+            return Some(false);
+        }
+    }
+    Some(true)
 }
 
 const HH: u64 = 9;
@@ -323,7 +374,8 @@ impl C07 {
     /// 256 shares of it with honest same-axis proofs.  Nothing can be re-encoded, so nothing may be "proven".
     fn gen_wide(&mut self, rng: &mut Rng, out: &mut Emitter) {
         let w = 512usize;
-        let idx = rng.usize(0, w - 1);
+        // a lower row: all its leaves are parity leaves by position
+        let idx = rng.usize(w / 2, w - 1);
         let leaves: Vec<Vec<u8>> = (0..w).map(|_| rng.bytes(SHARE)).collect();
         let mut nmt = Nmt::default();
         for l in &leaves {
@@ -348,7 +400,7 @@ impl C07 {
             })
             .collect();
         let mut l = format!(
-            "{} hh={HH} {} height={HH} index={idx} axis=0 axisdata={} axpar=- honest=0 rec=- par=-",
+            "{} hh={HH} {} height={HH} index={idx} axis=0 axisdata={} rec=- par=-",
             self.opname,
             roots_fields(&dah),
             hxl(&leaves)
@@ -415,6 +467,22 @@ impl Prop for C07 {
             }
             _ => "bad-op".into(),
         }
+    }
+    /// ground truth that does not come from the generator: recomputed from the line on EVERY run (also corpus / replay):
+    /// `<honest 0|1>/<the real codec's parity of the first half of axisdata>`
+    fn observed(&mut self, line: &str) -> Option<String> {
+        if !matches!(opname(line), "validate" | "validate_u") {
+            return None;
+        }
+        let axisdata: Option<Vec<Vec<u8>>> = arg(line, "axisdata").filter(|a| *a != "none").and_then(unhxl);
+        let axpar = axisdata
+            .as_ref()
+            .filter(|d| !d.is_empty() && d.len() % 2 == 0 && d.len() <= 256 && d.iter().all(|s| s.len() == SHARE))
+            .and_then(|d| encode_first_half(d))
+            .map(|p| hxl(&p))
+            .unwrap_or_else(|| "-".into());
+        let honest = honest_proof(line, axisdata.as_deref()).unwrap_or(false);
+        Some(format!("{}/{}", honest as u8, axpar))
     }
     fn result_tag(&self, _line: &str, result: &str) -> Option<String> {
         Some(result.split(' ').take(2).collect::<Vec<_>>().join(" "))
